@@ -2,7 +2,7 @@
    sizes.  Statements only; proofs in Proofs/ChunkProofs.v, ChunkRoundtrip.v. *)
 From Coq Require Import Init.Byte.
 From Hio Require Import Base.Prelude Model.HttpLine Model.Chunk Model.HttpMsg
-  Proofs.HttpLineProofs Proofs.ChunkProofs Proofs.ChunkRoundtrip Proofs.HttpMsgProofs Proofs.HttpMsgClosed.
+  Proofs.HttpLineProofs Proofs.ChunkProofs Proofs.ChunkRoundtrip Proofs.HttpMsgProofs Proofs.HttpMsgClosed Proofs.HttpMsgIndep.
 
 (* Strictness.  A chunk-size line whose size field (the text before the first
    ';', blanks and tabs around it removed) is not 1*HEXDIG makes parseChunk
@@ -117,6 +117,20 @@ Theorem C17_closed_irrelevant_while_data : forall k f s b x,
   run_to_msg (msg_stage_closed k) f s b = Some x.
 Proof. exact closed_irrelevant_while_data. Qed.
 Print Assumptions C17_closed_irrelevant_while_data.
+
+(* Reused parsers.  Server and Client keep ONE Requestant / Respondent per
+   connection (makeParser between messages).  For any list of byte strings each
+   of which is a complete message sequence (a fresh parser fed it ends between
+   messages): parsed back to back on one parser they give, message by message,
+   exactly what fresh parsers give -- body, chunk parameters, trailers,
+   headers, persistence.  Nothing of an earlier message (its body, its
+   trailers) shows in a later one. *)
+Theorem C17_per_message_independent : forall k ws,
+  Forall (fun w => between_messages (fst (feed (msg_stage k) init_state w))) ws ->
+  snd (feed (msg_stage k) init_state (concat ws)) =
+  concat (map (fun w => snd (feed (msg_stage k) init_state w)) ws).
+Proof. exact message_list_independent. Qed.
+Print Assumptions C17_per_message_independent.
 
 (* Non-vacuity: a response whose head and first bytes were parsed, then the
    rest (two chunks, last-chunk, trailer) arrives together with the closure. *)
